@@ -79,8 +79,15 @@ fn unary(rec: &mut Rec, r: &Rectangle, sizes: &[(u32, u32)], offs: &[i32]) {
         corners.push(json!([pt_json(p), pt_json(q), rect_json(&Rectangle::with_corners(p, q))]));
         corners.push(json!([pt_json(q), pt_json(p), rect_json(&Rectangle::with_corners(q, p))]));
     }
+    // probe points at the ends of the coordinate range (the distance to the rectangle does not fit in an i32)
+    for p in [Point::new(i32::MAX, 0), Point::new(i32::MIN, i32::MIN), Point::new(i32::MAX, i32::MAX), Point::new(0, i32::MIN),
+              Point::new(r.top_left.x, i32::MAX), Point::new(i32::MIN, r.top_left.y)] {
+        probes.push(json!([p.x, p.y, contains_both(r, p)]));
+    }
     let pts_logged = (r.size.width as u64 * r.size.height as u64) <= 150;
     let points = if pts_logged { pts_json(r.points()) } else { json!([]) };
+    // the points() iterator through count / last / nth / size_hint / fold / skip and indices beyond 2^32
+    let proto = if pts_logged { iter_protocol(|| r.points(), 1 + (r.size.width as usize + r.size.height as usize) % 3) } else { json!({}) };
     let mut resized = vec![];
     let mut rw = vec![];
     let mut rh = vec![];
@@ -110,7 +117,7 @@ fn unary(rec: &mut Rec, r: &Rectangle, sizes: &[(u32, u32)], offs: &[i32]) {
         json!({
             "r": rect_json(r), "center": pt_json(r.center()),
             "wc": rect_json(&Rectangle::with_center(r.center(), r.size)), "br": br,
-            "probes": probes, "pts_logged": pts_logged as i32, "points": points,
+            "probes": probes, "pts_logged": pts_logged as i32, "points": points, "proto": proto,
             "rows": [rows.start, rows.end], "cols": [cols.start, cols.end],
             "anchors": ANCHORS.iter().map(|a| pt_json(r.anchor_point(*a))).collect::<Vec<_>>(),
             "resized": resized, "rw": rw, "rh": rh, "off": off, "corners": corners,
@@ -172,6 +179,38 @@ fn run_case_inner(rec: &mut Rec, d: &Value) {
                 d["sizes"].as_array().unwrap().iter().map(|s| (i(&s[0]) as u32, i(&s[1]) as u32)).collect();
             let offs: Vec<i32> = d["offs"].as_array().unwrap().iter().map(|s| i(s) as i32).collect();
             unary(rec, &r, &sizes, &offs);
+            rec.nontrivial();
+        }
+        // resizing far rectangles / to very large sizes, restricted to anchors for which the ideal result is representable
+        // items [op (0 resized, 1 resized_width, 2 resized_height), w, h, anchor (1..9 | kx | ky), result]
+        "xres" => {
+            rec.begin(d.clone());
+            let r = rect_from(&d["r"]);
+            let (w, h) = (i(&d["size"][0]) as u32, i(&d["size"][1]) as u32);
+            let fits = |pos: i32, len: u32, new: u32, k: usize| -> bool {
+                let (p, l, n) = (pos as i64, (len as i64).max(1), (new as i64).max(1));
+                let lo = match k {
+                    0 => p,
+                    2 => p + l - n,
+                    _ => p + (l - n) / 2 - 2,
+                };
+                lo >= i32::MIN as i64 + 2 && lo + n + 4 <= i32::MAX as i64
+            };
+            let mut items = vec![];
+            for (ai, a) in ANCHORS.iter().enumerate() {
+                if fits(r.top_left.x, r.size.width, w, ai % 3) && fits(r.top_left.y, r.size.height, h, ai / 3) {
+                    items.push(json!([0, w, h, ai + 1, rect_json(&r.resized(Size::new(w, h), *a))]));
+                }
+            }
+            for k in 0..3 {
+                if fits(r.top_left.x, r.size.width, w, k) {
+                    items.push(json!([1, w, h, k, rect_json(&r.resized_width(w, AX[k]))]));
+                }
+                if fits(r.top_left.y, r.size.height, h, k) {
+                    items.push(json!([2, w, h, k, rect_json(&r.resized_height(h, AY[k]))]));
+                }
+            }
+            rec.ev("xres", json!({"r": rect_json(&r), "items": items}));
             rec.nontrivial();
         }
         k => panic!("unknown case kind {}", k),
@@ -259,6 +298,19 @@ fn main() {
             let sizes: Vec<Value> = (0..6).map(|_| json!([rng.u32r(0, smax), rng.u32r(0, smax)])).chain([json!([0, 0]), json!([1, 1])]).collect();
             let offs: Vec<i32> = (0..5).map(|_| rng.i32(-(smax.min(5000) as i32), smax.min(5000) as i32)).chain([0, 1, -1]).collect();
             run_case(&mut rec, &json!({"k":"un","r":rect_json(&r),"sizes":sizes,"offs":offs}));
+        }
+        // far rectangles and very large new sizes (<= 2^30, so that every difference the predicate takes fits in 32 bits)
+        {
+            let rects = [rect(10, 20, 5, 7), rect(2_000_000_000, -2_000_000_000, 100, 50), rect(-2_000_000_000, 2_000_000_000, 7, 9),
+                         rect(2_147_483_000, 2_147_483_000, 100, 100), rect(-2_147_483_000, -2_147_483_000, 64, 1), rect(1_600_000_000, 3, 0, 0),
+                         rect(1_000_000_000, -1_000_000_000, 1 << 30, 1 << 29), rect(-5, -5, 1 << 30, 3)];
+            let sizes = [(1u32 << 30, 3u32), (3, 1 << 30), (1 << 30, 1 << 30), (300_000_000, 50), (100, 400_000_000), (1, 1), (0, 0), (640, 640),
+                         (250_000_000, 120_000_000), ((1 << 30) - 1, (1 << 29) + 1)];
+            for r in &rects {
+                for &(w, h) in &sizes {
+                    run_case(&mut rec, &json!({"k":"xres","r":rect_json(r),"size":[w, h]}));
+                }
+            }
         }
     }
     rec.finish(json!({}));
